@@ -306,6 +306,7 @@ func runC15(c *Ctx) {
 
 	R.Rule("R-ext-latest-ehlo", "E2+E3", "the extension map the gates consult is replaced by a fresh one on every successful EHLO and cleared by the HELO fallback: it never keeps entries of an earlier greeting", 3)
 	ruleEhloReplacesExt(c)
+	ruleEhloKeys(c)
 
 	R.Rule("R-ext-gate", "E3 edge-feasibility", "each ESMTP parameter token is written only on the ok edge of the matching extension lookup; REQUIRETLS/SMTPUTF8 requested but not offered return an error and send nothing", 12)
 	gates := []struct{ fn, token, key string }{
@@ -378,4 +379,41 @@ func runC15(c *Ctx) {
 			})
 		}
 	}
+}
+
+// ruleEhloKeys (C15, C14): the extension map is keyed by the keyword of each reply line after the first (the first
+// line names the server, it is not an extension), spelled as the lookups spell it (verbatim or upper-cased).
+func ruleEhloKeys(c *Ctx) {
+	R := c.R
+	R.Rule("R-ehlo-keys", "E4 value flow", "ehlo keys Client.ext by the first word of every reply line but the first, verbatim or upper-cased", 2)
+	f := c.A.Func("(*Client).ehlo")
+	if f == nil {
+		return
+	}
+	n := 0
+	// every re-slicing of the reply's line list starts at index 1
+	fromSecond := true
+	allInstrs(f, func(in ssa.Instruction) {
+		if sl, ok := in.(*ssa.Slice); ok && strings.HasPrefix(describe(sl.X), "strings.Split(") {
+			if k, isK := constInt(sl.Low); sl.Low == nil || !isK || k != 1 {
+				fromSecond = false
+			}
+		}
+	})
+	allInstrs(f, func(in ssa.Instruction) {
+		mu, ok := in.(*ssa.MapUpdate)
+		if !ok || describe(mu.Map) != "makemap" {
+			return
+		}
+		n++
+		k := describe(mu.Key)
+		inner := strings.TrimSuffix(strings.TrimPrefix(k, "strings.ToUpper("), ")")
+		if !strings.HasPrefix(k, "strings.ToUpper(") {
+			inner = k
+		}
+		okKey := strings.HasPrefix(inner, "strings.SplitN(") && strings.HasSuffix(inner, `," ",2)[0]`) || strings.HasPrefix(inner, "strings.Cut(") && strings.HasSuffix(inner, `," ")#0`)
+		R.Ob(c.siteKey(in, "extension keyed by the line's keyword"), c.P.InstrPos(in), okKey, "extension stored under "+k+": the lookups c.ext[\"SIZE\"], c.ext[\"DSN\"], ... no longer find what the server advertised (options silently dropped) or find what it did not")
+		R.Ob(c.siteKey(in, "first reply line is not an extension"), c.P.InstrPos(in), strings.Contains(k, "slice(strings.Split(") && fromSecond, "extension lines are taken from "+k+": the greeting line (server name) is parsed as a keyword")
+	})
+	R.Ob("(*Client).ehlo/extension stores found", c.P.Pos(f.Pos()), n >= 1, fmt.Sprintf("%d stores", n))
 }
